@@ -21,6 +21,8 @@ ENDLESS = {
     "while-scheduled": ("gA = 0; while {true} do {gA = gA + 1};", True),
     "while-empty-body": ("while {true} do {};", True),
     "for-step0": ('for "_i" from 0 to 1 step 0 do {gA = 1};', False),
+    "for-step0-empty-body": ('for "_i" from 0 to 1 step 0 do {};', False),
+    "for-huge-empty-body": ('for "_i" from 0 to 100000000 do {};', True),
     "recursion": ("gF = {call gF}; call gF;", False),
     "recursion-args": ("gF = {(_this + 1) call gF}; 0 call gF;", False),
     "mutual-spawn": ("gF = {[] spawn gG}; gG = {[] spawn gF}; [] spawn gF; [] spawn gG;", True),
